@@ -26,6 +26,9 @@ Inductive rpc :=
   | RHead                  (* head := f.counters.Load() *)
   | RNext                  (* c.next.CompareAndSwap(nil, next)  or  c.next.Store(next) *)
   | RLink                  (* f.counters.CompareAndSwap(head, c) *)
+  | RDbgNext               (* c.next.Load() evaluated as a debugPrintf argument after a failed next CAS *)
+  | RDbgFail               (* f.counters.Load() evaluated as a debugPrintf argument after a failed head CAS *)
+  | RDbgOk                 (* f.counters.Load() evaluated as a debugPrintf argument after a successful head CAS *)
   | RDone.
 
 Record rthread := mkRT {
@@ -63,12 +66,15 @@ Definition rstep_thread (s : rshared) (t : rthread) : rshared * rthread :=
       else
         match next_of s (rt_c t) with
         | PNil => (mkR (r_head s) (rupd (r_next s) (rt_c t) nx), mkRT RLink (rt_c t) true (rt_head t))
-        | _ => (s, mkRT RTest (rt_c t) false (rt_head t))
+        | _ => (s, mkRT RDbgNext (rt_c t) false (rt_head t))
         end
   | RLink =>
       if ptr_eqb (r_head s) (rt_head t)
-      then (mkR (PCtr (rt_c t)) (r_next s), mkRT RDone (rt_c t) (rt_wrote t) (rt_head t))
-      else (s, mkRT RHead (rt_c t) (rt_wrote t) (rt_head t))
+      then (mkR (PCtr (rt_c t)) (r_next s), mkRT RDbgOk (rt_c t) (rt_wrote t) (rt_head t))
+      else (s, mkRT RDbgFail (rt_c t) (rt_wrote t) (rt_head t))
+  | RDbgNext => (s, mkRT RTest (rt_c t) (rt_wrote t) (rt_head t))
+  | RDbgFail => (s, mkRT RHead (rt_c t) (rt_wrote t) (rt_head t))
+  | RDbgOk => (s, mkRT RDone (rt_c t) (rt_wrote t) (rt_head t))
   | RDone => (s, t)
   end.
 
